@@ -24,9 +24,11 @@
 //
 // Observation: results of every call; after every non-applying call the whole
 // key space of the hash slot (ExportHashSlotSnapshot) must be byte-identical;
-// after every chunk the lanes (ListMessageEventStates), the cursor row and the
-// applied-event rows (InspectScan) must equal the model; every lane observed
-// terminal is frozen and compared again later independently of the model.
+// after every chunk the lanes (ListMessageEventStates) and the cursor row
+// (InspectScan) must equal the model; the applied-id rows are compared too but
+// only counted (which ids are recorded is an implementation choice); every
+// lane observed terminal is frozen and compared again later independently of
+// the model.
 //
 // Interpretation notes (to stay silent on correct code):
 //   - the State attached to a LATE replay is only required to carry the
@@ -455,7 +457,7 @@ func TestVerifC40(t *testing.T) {
 		r.Violation(sig, w)
 	}
 
-	n := r.N(2000, 24000)
+	n := r.N(2400, 22000)
 	for i := 0; i < n; i++ {
 		if r.Skip(i) {
 			continue
@@ -519,7 +521,13 @@ func TestVerifC40(t *testing.T) {
 				return
 			}
 			if callErr != nil {
-				violation("append-returned-error:"+path, map[string]any{"case": i, "phase": phase, "error": callErr.Error(), "events": c40Describe(evs)})
+				// an error return for a well-formed event is not excluded by the statement:
+				// undecided, not a refutation (never observed on the unchanged tree)
+				r.Count("append_errors."+path, 1)
+				if sigSeen["append-error"] == 0 {
+					r.Inconclusive(fmt.Sprintf("case %d: AppendMessageEvent via %s returned %v for %v", i, path, callErr, c40Describe(evs)))
+				}
+				sigSeen["append-error"]++
 				bad = true
 				return
 			}
@@ -643,9 +651,10 @@ func TestVerifC40(t *testing.T) {
 					return
 				}
 				r.Eval(1)
+				// Which ids the implementation records is its own business (the statement only
+				// promises that a replay is not applied twice): evidence, not a verdict.
 				if len(app) != len(m.Applied) {
-					violation("applied-id-rows-differ-from-reference", map[string]any{"case": i, "msg": msg, "rows": len(app), "model": len(m.Applied), "history": shape.String()})
-					bad = true
+					r.Count("applied_id_rows.count_differs_from_reference", 1)
 				}
 				for _, row := range app {
 					id, _ := row["event_id"].(string)
@@ -654,8 +663,9 @@ func TestVerifC40(t *testing.T) {
 					key, _ := row["event_key"].(string)
 					status, _ := row["status"].(string)
 					if !ok || rec.Seq != seq || rec.Key != key || rec.Status != status {
-						violation("applied-id-row-differs-from-reference", map[string]any{"case": i, "row": fmt.Sprintf("%v", row), "model": fmt.Sprintf("%+v", rec), "known": ok})
-						bad = true
+						r.Count("applied_id_rows.row_differs_from_reference", 1)
+					} else {
+						r.Count("applied_id_rows.match", 1)
 					}
 				}
 			}
